@@ -8,7 +8,7 @@
    iter_index t it = number of items before position it (= distance from begin).
    All statements hold for every 1 <= maxCapacity <= 255, every capacityStep, blockCount, search strategy. *)
 From Coq Require Import ZArith List.
-From C02 Require Import BTreeModel BTreeParams BTreeBase BTreeSearch BTreeIter BTreeAdd BTreeTop BTreeHist.
+From C02 Require Import BTreeModel BTreeParams BTreeBase BTreeSearch BTreeIter BTreeAdd BTreeRemove BTreeTop BTreeHist BTreeRemoveTop.
 Import ListNotations.
 Local Open Scope Z_scope.
 
@@ -168,6 +168,29 @@ Theorem C02_count_is_length :
   forall maxCap : nat, (1 <= maxCap <= 255)%nat -> forall t : tree, twf maxCap t -> cnt t = length (contents t).
 Proof. exact count_is_length. Qed.
 Print Assumptions C02_count_is_length.
+
+(* rebalance_preserves_flatten: pvRebalance(node, savedNode, fast) -- the root-collapse loop, every sibling merge
+   (c1 + c2 + 1 <= capacity(node1)) of the bottom-up loop, for ANY node path, saved path and fast flag -- keeps the
+   WF shape (at the possibly smaller height) and the in-order contents. *)
+Theorem C02_rebalance_preserves_flatten :
+  forall maxCap : nat, (1 <= maxCap <= 255)%nat ->
+  forall (d : nat) (r : node) (np sp : list nat) (fast : bool), shape maxCap d r ->
+    exists d', shape maxCap d' (fst (rebalance r np sp fast)) /\ flatten (fst (rebalance r np sp fast)) = flatten r.
+Proof. exact rebalance_preserves. Qed.
+Print Assumptions C02_rebalance_preserves_flatten.
+
+(* remove_refines, proved part: Remove(iterator) of an item stored in a LEAF (node->Remove, then pvRebalance):
+   WF and mCount are kept and the sequence loses exactly the item at the iterator's index.
+   NOT proved: the index of the returned iterator, and removal of an item stored in an internal node
+   (pvRemoveInternal); both are in the model and compared with the real code on every run. *)
+Theorem C02_remove_leaf_refines_partial :
+  forall maxCap : nat, (1 <= maxCap <= 255)%nat -> forall (t : tree) (it : iter),
+    twf maxCap t -> tvalid t it -> titem t it ->
+    (match root t with Some r => length (fst it) = height r | None => True end) ->
+    let t' := fst (remove t it) in
+    twf maxCap t' /\ contents t' = remove_at (iter_index t it) (contents t).
+Proof. exact remove_leaf_refines. Qed.
+Print Assumptions C02_remove_leaf_refines_partial.
 
 (* lifted over ALL finite histories of Insert / Clear from the empty container: the state is WF, sorted
    (non-decreasing / strictly increasing) and equals the reference sequence computed by the list-level spec. *)
